@@ -4,5 +4,6 @@ INVARIANT NoTempAtExit
 INVARIANT RequestsExact
 INVARIANT OutIndexIsHost
 INVARIANT NoChallengeNoCredentials
+INVARIANT KeyStageFirst
 POSTCONDITION Post
 CHECK_DEADLOCK FALSE
